@@ -12,12 +12,13 @@ import (
 func init() { Registry["C18"] = checkC18 }
 
 func checkC18(p *core.Prog, r *core.Report) {
-	r.Explanation = "Decides structural necessary conditions of disconnect semantics: (R1) Server.handle reaches serverProtocol.Close() on every path after a successful protocol detection (the failing path closes the stream); (R2) every Close of a connection protocol is a test-and-set under its mutex that takes ownership of the will queue (copied to a local, field cleared) before the mutex is released, and drains the local copy with every queued command handed to the engine entry regardless of earlier results; (R3) will registration never executes: the registration arms push to the will queue, rewrite the command type to LOCK/UNLOCK before the push (otherwise Close would only re-register it), and call no engine function; (R4) registration uses Push (tail) and the drain uses Pop (head) of the same queue; (R5) proxies are repointed to the default protocol inside the critical section that sets closed, and AddProxy reports success only after tracking the proxy (and refuses when closed); (R6) replies are re-routed by the connection's own client id, never to the closing connection itself, and Close removes the client-id entry only if it still maps to this connection. NOT decided: exactly-once when a close races the drain on a follower whose leader is unreachable, leaks of queued requests, delivery after reconnect."
+	r.Explanation = "Decides structural necessary conditions of disconnect semantics: (R1) Server.handle reaches serverProtocol.Close() on every path after a successful protocol detection (the failing path closes the stream); (R2) every Close of a connection protocol is a test-and-set under its mutex that takes ownership of the will queue (copied to a local, field cleared) before the mutex is released, and drains the local copy with every queued command handed to the engine entry regardless of earlier results; (R3) will registration never executes: the registration arms push to the will queue, rewrite the command type to LOCK/UNLOCK before the push (otherwise Close would only re-register it), and call no engine function; (R4) registration uses Push (tail) and the drain uses Pop (head) of the same queue; (R5) proxies are repointed to the default protocol inside the critical section that sets closed, and AddProxy reports success only after tracking the proxy (and refuses when closed); (R6) replies are re-routed by the connection's own client id, never to the closing connection itself, and Close removes the client-id entry only if it still maps to this connection. (R7) the code that registers a will (pushes the command object onto the connection's will queue) does not return that object to the command pool on the same path. NOT decided: exactly-once when a close races the drain on a follower whose leader is unreachable, leaks of queued requests, delivery after reconnect."
 	r.Assumptions = []string{"Go type checker and go/ssa are correct for /repo"}
 	c18R1(p, r)
 	c18R2(p, r)
 	c18R3(p, r)
 	c18R6(p, r)
+	c18R7(p, r)
 	c18R5(p, r)
 }
 
@@ -526,4 +527,92 @@ func c18R6(p *core.Prog, r *core.Report) {
 		}
 	}
 	_ = clientsKey
+}
+
+// c18R7: a will is kept by reference: the command object pushed onto the
+// connection's will queue is the one the drain at Close() executes. The code
+// that registered it must not hand the same object back to the connection's
+// command pool - the next request on the connection would overwrite it and the
+// drain would replay that request instead of the will.
+func c18R7(p *core.Prog, r *core.Report) {
+	const rule = "C18/R7"
+	r.Rule(rule, "a command object pushed onto a connection's will queue is not returned to the command pool on the same path (the queue keeps it by reference until the drain)", 2)
+	n := 0
+	for _, fn := range p.FuncsIn("server") {
+		if fn.Blocks == nil || p.IsNewFunc(fn) {
+			continue
+		}
+		rn := recvName(fn)
+		if rn != "BinaryServerProtocol" && rn != "TextServerProtocol" {
+			continue
+		}
+		// entry points: functions that dispatch a parsed command (call ProcessCommad) or push a will themselves
+		relevant, drains := false, false
+		for _, b := range fn.Blocks {
+			for _, ins := range b.Instrs {
+				if c := core.StaticCallee(ins); c != nil && c.Name() == "ProcessCommad" && recvName(c) == rn {
+					relevant = true
+				}
+				if calleeIs(ins, "LockCommandQueue", "Push") {
+					relevant = true
+				}
+				if calleeIs(ins, "LockCommandQueue", "Pop") {
+					drains = true // the drain re-dispatches what it pops (C18/R2); loop iterations share names
+				}
+			}
+		}
+		if !relevant || drains || fn.Name() == "ProcessCommad" {
+			continue
+		}
+		name := core.FuncName(fn)
+		pushes := 0
+		ex := core.NewExplorer(p, core.Hooks{
+			Inline: func(x *core.X, callee *ssa.Function) bool {
+				return callee.Name() == "ProcessCommad" && recvName(callee) == rn
+			},
+			Instr: func(x *core.X) {
+				if calleeIs(x.Ins, "LockCommandQueue", "Push") && strings.HasSuffix(core.Plain(argCanon(x, x.Ins, 0)), ".willCommands") {
+					pushes++
+					x.Set("will:"+c18Obj(argCanon(x, x.Ins, 1)), "1")
+					return
+				}
+				cmd, ok := freeCall(x, x.Ins)
+				if !ok {
+					return
+				}
+				cmd = c18Obj(cmd)
+				if x.Get("will:"+cmd) == "1" {
+					r.Violate(rule, name+": registered will stays out of the pool", x.Pos(), "the command object "+cmd+" was pushed onto the will queue on this path and is now returned to the connection's command pool: the next request reuses and overwrites it, and the drain at disconnect replays that request instead of the registered will", x.St.Trace)
+					x.Set("bad", "1")
+				}
+			},
+			Exit: func(x *core.X, rets []core.Expr) {},
+		})
+		ex.NoHist = true
+		ex.MaxSteps = 600000
+		ex.Run(fn, nil)
+		if ex.Imprecise != "" {
+			r.Stats["R7_outside_budget"]++
+			continue
+		}
+		if pushes > 0 {
+			n++
+			r.Hold(rule, name+": registered will stays out of the pool", p.Pos(fn.Pos()), "no path frees a command it pushed onto the will queue")
+		}
+	}
+	if n == 0 {
+		r.Fail("C18/R7: no function registers a will")
+	}
+}
+
+// c18Obj names a command object independent of the interface it travels in.
+func c18Obj(s string) string {
+	s = core.Plain(s)
+	for _, suf := range []string{".(*LockCommand)", ".(*protocol.LockCommand)"} {
+		s = strings.ReplaceAll(s, suf, "")
+	}
+	for strings.HasPrefix(s, "iface(") && strings.HasSuffix(s, ")") {
+		s = s[len("iface(") : len(s)-1]
+	}
+	return s
 }
